@@ -69,6 +69,7 @@ const (
 	CandForeign  = "foreign"  // valid successor but a different channel id
 	CandArb      = "arb"      // arbitrary: version+5, sum +3, not final
 	CandArbFinal = "arbfinal" // arbitrary and final
+	CandFewCols  = "fewcols"  // successor whose balance rows have one column less than the channel has participants (force-update only, opt-in)
 
 	InitValid    = "valid"
 	InitWrongDim = "wrongdim" // N+1 balance columns
@@ -294,6 +295,11 @@ func (e *Exec) candidate(kind string, actor int, base *channel.State) *channel.S
 	n := e.Cfg.N
 	pay := func() {
 		// the actor pays one unit of asset 0 to its right neighbour if it can
+		// (a forced state may have fewer balance columns than participants)
+		n := len(s.Balances[0])
+		if n < 2 {
+			return
+		}
 		a := actor % n
 		if s.Balances[0][a].Sign() > 0 {
 			s.Balances[0][a] = new(big.Int).Sub(s.Balances[0][a], big.NewInt(1))
@@ -311,13 +317,24 @@ func (e *Exec) candidate(kind string, actor int, base *channel.State) *channel.S
 		pay()
 		s.Version = base.Version + 2
 	case CandSumOff:
-		s.Balances[0][0] = new(big.Int).Add(s.Balances[0][0], big.NewInt(1))
+		if len(s.Balances[0]) > 0 {
+			s.Balances[0][0] = new(big.Int).Add(s.Balances[0][0], big.NewInt(1))
+		}
 	case CandForeign:
 		pay()
 		s.ID[0] ^= 0xff
+	case CandFewCols:
+		pay()
+		for a := range s.Balances {
+			if len(s.Balances[a]) == n {
+				s.Balances[a] = s.Balances[a][:n-1]
+			}
+		}
 	case CandArb, CandArbFinal:
 		s.Version = base.Version + 5
-		s.Balances[0][n-1] = new(big.Int).Add(s.Balances[0][n-1], big.NewInt(3))
+		if l := len(s.Balances[0]); l > 0 {
+			s.Balances[0][l-1] = new(big.Int).Add(s.Balances[0][l-1], big.NewInt(3))
+		}
 		s.IsFinal = kind == CandArbFinal
 	default:
 		panic("mach: unknown candidate kind " + kind)
